@@ -67,6 +67,18 @@ func c06Ops() []c06Op {
 		c06Op{"ReplyTo(quoted name)", func(m *mail.Msg) error { return m.ReplyTo(c06A1.str()) }, set("Reply-To", c06A1)},
 		c06Op{"ReplyToFormat(non-ASCII)", func(m *mail.Msg) error { return m.ReplyToFormat("Jürgen Müller", "a2@x.example") }, set("Reply-To", c06A2)},
 	)
+	ops = append(ops,
+		c06Op{"EnvelopeFromFormat(name)", func(m *mail.Msg) error { return m.EnvelopeFromFormat("Bounce, Handler", "vbounce@env.example") }, set("EnvelopeFrom", na{"Bounce, Handler", "vbounce@env.example"})},
+		c06Op{"SetAddrHeader(To, two)", func(m *mail.Msg) error { return m.SetAddrHeader(mail.HeaderTo, c06A1.str(), c06A0.str()) }, set("To", c06A1, c06A0)},
+		c06Op{"SetAddrHeader(Bcc, own)", func(m *mail.Msg) error { return m.SetAddrHeader(mail.HeaderBcc, c06A3.str()) }, set("Bcc", c06A3)},
+		c06Op{"SetAddrHeaderIgnoreInvalid(Cc, valid+invalid)", func(m *mail.Msg) error { m.SetAddrHeaderIgnoreInvalid(mail.HeaderCc, c06A2.str(), c06Bad); return nil }, resync},
+		c06Op{"SetAddrHeader(From, two: first wins)", func(m *mail.Msg) error { return m.SetAddrHeader(mail.HeaderFrom, c06A1.str(), c06A0.str()) }, set("From", c06A1)},
+	)
+	// renderings and a send in the middle of the sequence: they must not change what later calls mean
+	ops = append(ops,
+		c06Op{"(render)", func(m *mail.Msg) error { var b bytes.Buffer; _, err := m.WriteTo(&b); return err }, func(ref map[string][]na) bool { return true }},
+		c06Op{"(NewReader)", func(m *mail.Msg) error { _ = m.NewReader(); return nil }, func(ref map[string][]na) bool { return true }},
+	)
 	type hdr struct {
 		name    string
 		set     func(m *mail.Msg, l ...string) error
